@@ -1245,6 +1245,7 @@ main (int argc, char **argv)
 	    int amode = (int) tokint ();
 	    char *dm = tok ();
 	    int dmode = dm ? dm[0] : 'f';
+	    int warmup = dm && dm[1] == 'w';	/* "nw": a preliminary parse, marked in the transcript */
 	    gobj_t g = slot_of (s);
 	    struct tree *t;
 	    int rc, amb = -12345, i;
@@ -1282,8 +1283,8 @@ main (int argc, char **argv)
 			  (amode == 2 || amode == 3) ? u_free : NULL, &root, &amb);
 	    in_library = 0;
 	    t->root = (rc == 0 && root != (struct yaep_tree_node *) (uintptr_t) 0xDEAD0) ? root : NULL;
-	    fprintf (out, "{\"op\":\"parse\",\"slot\":%ld,\"tid\":%d,\"rc\":%d,\"amb\":%d,\"ntok\":%d,\"read\":%d,\"am\":%d",
-		     s, n_trees, rc, amb, n_ptoks, i_ptok, amode);
+	    fprintf (out, "{\"op\":\"%s\",\"slot\":%ld,\"tid\":%d,\"rc\":%d,\"amb\":%d,\"ntok\":%d,\"read\":%d,\"am\":%d",
+		     warmup ? "warmup" : "parse", s, n_trees, rc, amb, n_ptoks, i_ptok, amode);
 	    if (root == (struct yaep_tree_node *) (uintptr_t) 0xDEAD0)
 	      fprintf (out, ",\"root_untouched\":1");
 	    print_err (g);
